@@ -350,10 +350,10 @@ def expiryEffective (wrapper : String) (nopts fire : Nat) : Bool :=
   if wrapper = "fx" then fxParent ((List.range nopts).map (fun (i : Nat) => some (Int.ofNat i))) == some (Int.ofNat fire)
   else true
 
-def runSelLine (r : Report) (sec : Nat) (l : Line) : Report := Id.run do
+def runSelLineOp (r : Report) (sec : Nat) (l : Line) (op : List String) (pfx : String := "sel") : Report := Id.run do
   let mut r := r
   let parsed : Option (String × (SelSt → SelLabel → Option SelSt) × String × String × Work × Nat × Nat) :=
-    match l.op with
+    match op with
     | ["sel", w, kind, at', work] => do pure (w, (← stepOf w), kind, at', (← parseWork work), 1, 0)
     | ["sel", w, kind, at', work, n, f] => do pure (w, (← stepOf w), kind, at', (← parseWork work), (← n.toNat?), (← f.toNat?))
     | _ => none
@@ -376,7 +376,7 @@ def runSelLine (r : Report) (sec : Nat) (l : Line) : Report := Id.run do
           let s1 := mainTakesWork stepf (workerRuns stepf s0)
           if s1.out.isSome then "out=" ++ outStr s1
           else "out=blocked" ++ (if eff then " then=" ++ outStr (mainTakesTimeout stepf s1 (kind.getD .deadline)) else "")
-      r := r.addCover s!"sel-{w}-{kindTok}-{at'}" |>.addCover s!"sel-{w}-work-{(joinSp [toString (repr work)]).takeWhile (· != ' ')}"
+      r := r.addCover s!"{pfx}-{w}-{kindTok}-{at'}" |>.addCover s!"{pfx}-{w}-work-{(joinSp [toString (repr work)]).takeWhile (· != ' ')}"
       if kind.isSome && !eff then r := r.addCover "fx-expiry-of-non-last-option-ignored"
       if model ≠ impl then r := r.mismatch sec l.idx model impl
       -- monitor on the implementation's observation
@@ -392,6 +392,8 @@ def runSelLine (r : Report) (sec : Nat) (l : Line) : Report := Id.run do
             r := r.violation sec l.idx s!"{e}: op=[{joinSp l.op}] impl=[{impl}]"
         | none => r := r.violation sec l.idx s!"outcome is neither the work's result nor a timeout result: op=[{joinSp l.op}] impl=[{impl}]"
       return r
+
+def runSelLine (r : Report) (sec : Nat) (l : Line) : Report := runSelLineOp r sec l l.op
 
 def runSelRaceLine (r : Report) (sec : Nat) (l : Line) : Report :=
   match l.op with
@@ -424,56 +426,207 @@ def dlClassT (parent d : Deadline) (tMs : Int) : String :=
 def dlViolates (impl : String) (parentMs : Option Int) (wraps : Bool) (tMs : Int) : Bool :=
   if impl = "other" || impl = "late" then true
   else if impl = "none" then wraps || parentMs.isSome
-  else if impl = "parent" then false
+  else if impl = "parent" then
+    -- exactly the caller's deadline: fine unless that is LATER than now + t (the harness's caller deadlines are at least
+    -- 5 s away from every timeout in play, or equal to one)
+    (match parentMs with | some p => wraps && p > tMs + 4000 | none => true)
   else match (impl.splitOn "@") with
     | ["window", x] => match x.toInt? with
       | some xm => !wraps || xm > tMs || (match parentMs with | some p => p < xm | none => false)
       | none => true
     | _ => true
 
-def runDlSelLine (r : Report) (sec : Nat) (l : Line) : Report :=
-  let ms (x : Int) : Int := x * 1000000
+def msI (x : Int) : Int := x * 1000000
+
+def parseMts (mts : List String) : Option (List (Nat × Int)) :=
+  mts.mapM fun m => match m.splitOn ":" with
+    | [a, b] => do pure ((← a.toNat?), msI (← b.toInt?))
+    | _ => none
+
+def parseCallOpts (opts : List String) : Option (List (Option Int)) :=
+  opts.mapM fun o => if o = "o" then some (none : Option Int) else
+    match o.splitOn ":" with
+    | ["t", b] => do pure (some (msI (← b.toInt?)))
+    | _ => none
+
+/-- the configuration a line's interceptor was built from (lines with the same key share it under `inst=shared`) -/
+def instKey (l : Line) : Option String :=
+  match l.op with
+  | "dl" :: "srv" :: _ :: dflt :: _ :: mts => some ("srv|" ++ dflt ++ "|" ++ joinSp mts)
+  | "tsel" :: dflt :: _ :: _ :: _ :: _ :: mts => some ("srv|" ++ dflt ++ "|" ++ joinSp mts)
+  | "dl" :: "cli" :: _ :: dflt :: _ => some ("cli|" ++ dflt)
+  | _ => none
+
+/-- the call a line makes, as the interceptor sees it (harness clock: now = 0) -/
+def callOf (l : Line) : Option Call :=
+  match l.op with
+  | "dl" :: "srv" :: p :: _ :: method :: _ => do pure { method := (← method.toNat?), parent := (← parseParent p).map msI, now := 0 }
+  | "tsel" :: _ :: method :: _ => do pure { method := (← method.toNat?), parent := none, now := 0 }
+  | "dl" :: "cli" :: p :: _ :: _ :: opts => do pure { method := 1, opts := (← parseCallOpts opts), parent := (← parseParent p).map msI, now := 0 }
+  | _ => none
+
+/-- earlier calls of the section through the same interceptor (`hist`: the section's lines if `inst=shared`) -/
+def earlierCalls (hist : List Line) (l : Line) : List Call :=
+  (hist.filter (fun h => h.idx < l.idx && instKey h == instKey l)).filterMap callOf
+
+/-- `dl srv …`, `dl cli …`: the deadline the work sees.  `hist`: the lines of the section when its interceptors are shared
+(the model then runs the whole sequence of calls through ONE closure state). -/
+def runDlSelLine (r : Report) (sec : Nat) (l : Line) (hist : List Line := []) : Report :=
+  let ms := msI
   match l.op with
   | "dl" :: "srv" :: p :: dflt :: method :: mts =>
-    let mts' := mts.mapM fun m => match m.splitOn ":" with
-      | [a, b] => do pure ((← a.toNat?), ms (← b.toInt?))
-      | _ => none
-    match parseParent p, dflt.toInt?, method.toNat?, mts' with
-    | some parent, some d, some m, some tbl =>
+    match parseParent p, dflt.toInt?, method.toNat?, parseMts mts, callOf l with
+    | some parent, some d, some m, some tbl, some call =>
       let t := srvTimeout (ms d) tbl m
-      let dl := srvDeadline (ms d) tbl m (parent.map ms) 0
+      let prev := earlierCalls hist l
+      let dl := (((SrvInst.new (ms d) tbl).run (prev ++ [call])).getLast?).getD none
       let model := "dl=" ++ dlClassT (parent.map ms) dl (t / 1000000)
       let impl := joinSp l.obs
       let r := r.addCover (if t = ms d then "srv-default-timeout" else "srv-method-timeout")
       let r := r.addCover ("srv-" ++ (model.splitOn "@").headD "")
+      let r := if t ≤ 0 then r.addCover "srv-timeout<=0-born-expired" else r
+      let r := if m = 0 then r.addCover "srv-empty-method-name" else r
+      let prevT := prev.map (fun c => srvTimeout (ms d) tbl c.method)
+      let r := if !prev.isEmpty then r.addCover "srv-shared-instance-later-call" else r
+      let r := if prevT.any (· > t) then r.addCover "srv-shared-after-call-with-longer-timeout" else r
+      let r := if prevT.any (· < t) then r.addCover "srv-shared-after-call-with-shorter-timeout" else r
+      let r := if prevT.any (· ≠ ms d) && t = ms d then r.addCover "srv-shared-default-after-method-timeout" else r
       let r := if model ≠ impl then r.mismatch sec l.idx model impl else r
       if dlViolates (obsOf l "dl") parent true (t / 1000000) then
-        r.violation sec l.idx s!"deadline seen by the work is later than min(caller's deadline, now+timeout): op=[{joinSp l.op}] impl=[{impl}]"
+        r.violation sec l.idx s!"deadline seen by the work is later than min(caller's deadline, now+timeout) of its own method: op=[{joinSp l.op}] impl=[{impl}]{if prev.isEmpty then "" else s!" after {prev.length} earlier call(s) through the same interceptor"}"
       else r
-    | _, _, _, _ => r.mismatch sec l.idx "bad-op" (joinSp l.op)
+    | _, _, _, _, _ => r.mismatch sec l.idx "bad-op" (joinSp l.op)
   | "dl" :: "cli" :: p :: dflt :: e :: opts =>
-    let opts' := opts.mapM fun o => if o = "o" then some (none : Option Int) else
-      match o.splitOn ":" with
-      | ["t", b] => do pure (some (ms (← b.toInt?)))
-      | _ => none
-    match parseParent p, dflt.toInt?, e.toNat?, opts' with
-    | some parent, some d, some ev, some os =>
+    match parseParent p, dflt.toInt?, e.toNat?, parseCallOpts opts, callOf l with
+    | some parent, some d, some ev, some os, some call =>
       let t := cliTimeout (ms d) os
-      let dl := cliDeadline (ms d) os (parent.map ms) 0
-      let model := "dl=" ++ dlClassT (parent.map ms) dl (t / 1000000) ++ s!" err={ev}"
+      let prev := earlierCalls hist l
+      let dl := (((CliInst.mk (ms d)).run (prev ++ [call])).getLast?).getD none
+      let model := "dl=" ++ dlClassT (parent.map ms) dl (t / 1000000) ++ s!" err={ev} fwd=ok"
       let impl := joinSp l.obs
-      let r := r.addCover (if cliWraps (ms d) os then (if t = ms d then "cli-default-timeout" else "cli-call-option-timeout") else "cli-pass-through")
+      let wraps := cliWraps (ms d) os
+      let r := r.addCover (if wraps then (if t = ms d then "cli-default-timeout" else "cli-call-option-timeout") else "cli-pass-through")
+      let r := if wraps && t < ms d then r.addCover "cli-option-shorter-than-default" else r
+      let r := if wraps && t > ms d then r.addCover "cli-option-longer-than-default" else r
+      let r := if !wraps && t ≠ ms d then r.addCover "cli-option<=0-disables-timeout" else r
+      let r := if wraps && d ≤ 0 then r.addCover "cli-option-enables-timeout-default<=0" else r
+      let r := match parent with
+        | none => r.addCover "cli-caller-no-deadline"
+        | some pm =>
+          let r := if pm < 0 then r.addCover "cli-caller-already-expired" else r
+          let r := if wraps && ms pm < t then r.addCover "cli-caller-earlier-than-timeout" else r
+          let r := if wraps && ms pm > t then r.addCover "cli-caller-later-than-timeout" else r
+          if wraps && t < ms pm && ms pm ≤ ms d then r.addCover "cli-option<caller<=default" else r
+      let r := if (os.filter (·.isSome)).length > 1 then r.addCover "cli-several-call-timeouts-first-wins" else r
+      let prevT := prev.map (fun c => cliTimeout (ms d) c.opts)
+      let r := if !prev.isEmpty then r.addCover "cli-shared-instance-later-call" else r
+      let r := if prevT.any (· ≠ t) then r.addCover "cli-shared-after-call-with-other-timeout" else r
       let r := if model ≠ impl then r.mismatch sec l.idx model impl else r
-      let r := if dlViolates (obsOf l "dl") parent (cliWraps (ms d) os) (t / 1000000) then
-        r.violation sec l.idx s!"deadline seen by the work is later than min(caller's deadline, now+timeout): op=[{joinSp l.op}] impl=[{impl}]"
+      let r := if dlViolates (obsOf l "dl") parent wraps (t / 1000000) then
+        r.violation sec l.idx s!"deadline seen by the invoker is later than min(caller's deadline, now+effective timeout): op=[{joinSp l.op}] impl=[{impl}]"
       else r
-      if obsOf l "err" ≠ toString ev then
+      let r := if obsOf l "err" ≠ toString ev then
         r.violation sec l.idx s!"the invoker's error did not reach the caller unchanged: op=[{joinSp l.op}] impl=[{impl}]"
       else r
-    | _, _, _, _ => r.mismatch sec l.idx "bad-op" (joinSp l.op)
+      if obsOf l "fwd" ≠ "ok" then
+        r.violation sec l.idx s!"the call (method, request, reply, connection, options) did not reach the invoker unchanged: op=[{joinSp l.op}] impl=[{impl}]"
+      else r
+    | _, _, _, _, _ => r.mismatch sec l.idx "bad-op" (joinSp l.op)
   | _ => runDlLine r sec l
 
+/-- `tsel <dfltMs> <method> <kind> <at> <work> <m:ms>*`: the outcome law through an interceptor with a method table; the
+method's own timeout is either the wrapper's real 3 ms timer (`kind = timer`) or long -/
+def runTSelLine (r : Report) (sec : Nat) (l : Line) (hist : List Line) : Report :=
+  match l.op with
+  | "tsel" :: dflt :: method :: kind :: at' :: work :: mts =>
+    match dflt.toInt?, method.toNat?, parseMts mts with
+    | some d, some m, some tbl =>
+      let prev := earlierCalls hist l
+      -- the timeout in force for this call: the model's closure after the earlier calls
+      let inst := prev.foldl (fun (i : SrvInst) c => (i.call c.method c.parent c.now).2) (SrvInst.new (msI d) tbl)
+      let t := getTimeoutByUnaryServerInfo m inst.timeouts inst.timeout
+      let short := decide (t ≤ msI 3)
+      if short != (kind == "timer") || (!short && t < msI 60000) then
+        r.mismatch sec l.idx "bad-op (kind=timer iff the method's timeout is the 3 ms one, else >= 1 min)" (joinSp l.op)
+      else
+        let prevT := prev.map (fun c => srvTimeout (msI d) tbl c.method)
+        let r := if prevT.any (· > t) then r.addCover "tsel-short-timeout-after-call-with-long-one" else r
+        let r := if prevT.any (· < t) then r.addCover "tsel-long-timeout-after-call-with-short-one" else r
+        let r := r.addCover (if srvTimeout (msI d) tbl m = msI d then "tsel-default-timeout" else "tsel-method-timeout")
+        runSelLineOp r sec l ["sel", "srv", kind, at', work] "tsel"
+    | _, _, _ => r.mismatch sec l.idx "bad-op" (joinSp l.op)
+  | _ => r.mismatch sec l.idx "bad-op" (joinSp l.op)
 
+/-- `fxt <fire|hold> <timeoutMs> <work> <parentMs|none>*`: fx.DoWithTimeout under real deadlines -/
+def runFxtLine (r : Report) (sec : Nat) (l : Line) : Report :=
+  match l.op with
+  | "fxt" :: expect :: timeout :: work :: parents =>
+    match timeout.toInt?, parseWork work, parents.mapM parseParent with
+    | some t, some w, some ps =>
+      let dl := fxDeadline (msI t) (ps.map (·.map msI)) 0
+      let fires := match dl with | some x => decide (x ≤ msI 3) | none => false
+      if (expect ≠ "fire" && expect ≠ "hold") || fires != (expect == "fire") then
+        r.mismatch sec l.idx "bad-op (fire iff min(last parent, now+timeout) <= 3 ms)" (joinSp l.op)
+      else
+        let s0 : SelSt := { work := w }
+        let model :=
+          if fires then "out=" ++ outStr (mainTakesTimeout fxStep s0 .deadline)
+          else
+            let s1 := mainTakesWork fxStep (workerRuns fxStep s0)
+            "out=blocked" ++ (if s1.out.isSome then " then=" ++ outStr s1 else "")
+        let impl := joinSp l.obs
+        let r := r.addCover s!"fxt-{expect}-timeout{if t ≤ 0 then "<=0" else if t ≤ 3 then "-short" else "-long"}"
+        let r := r.addCover s!"fxt-{ps.length}-options"
+        let r := match ps.getLast? with
+          | some (some p) => r.addCover (if p ≤ 3 && t > 3 then "fxt-parent-deadline-earlier-than-timeout" else if p > 3 && t ≤ 3 then "fxt-timeout-earlier-than-parent-deadline" else "fxt-parent-deadline")
+          | some none => r.addCover "fxt-last-option-without-deadline"
+          | none => r.addCover "fxt-background"
+        let r := if ps.dropLast.any (fun p => match p with | some x => x ≤ 3 | none => false) && !fires then
+          r.addCover "fxt-early-deadline-of-non-last-option-ignored" else r
+        let r := if model ≠ impl then r.mismatch sec l.idx model impl else r
+        -- monitor: the spec's own reading: the call ends by itself iff timeout or the LAST option's deadline is (almost) now
+        let specFires := Spec.fxFires t ps
+        let last := (kv? l.obs "then").getD (obsOf l "out")
+        if obsOf l "out" = "stuck" || last = "stuck" then
+          r.violation sec l.idx s!"wrapper did not return at the deadline while the work ignored it: op=[{joinSp l.op}] impl=[{impl}]"
+        else if last = "blocked" then
+          (if specFires then r.violation sec l.idx s!"wrapper did not return at the deadline while the work ignored it: op=[{joinSp l.op}] impl=[{impl}]" else r)
+        else
+          match parseOutcome last with
+          | some o =>
+            let o' := match o with | .result _ e => Outcome.result (match w with | .ret r' _ => r' | _ => 0) e | o => o
+            let r := (Spec.checkSel w (if specFires then some .deadline else none) o').foldl
+              (fun r e => r.violation sec l.idx s!"{e}: op=[{joinSp l.op}] impl=[{impl}]") r
+            if specFires && obsOf l "out" ≠ "timeout:deadline" then
+              r.violation sec l.idx s!"the deadline (min of the caller's and now+timeout) had passed but the wrapper waited for the work: op=[{joinSp l.op}] impl=[{impl}]"
+            else r
+          | none => r.violation sec l.idx s!"outcome is neither the work's result nor a timeout result: op=[{joinSp l.op}] impl=[{impl}]"
+    | _, _, _ => r.mismatch sec l.idx "bad-op" (joinSp l.op)
+  | _ => r.mismatch sec l.idx "bad-op" (joinSp l.op)
+
+/-- `gt <dfltMs> <o|t:ms>*` => `t=<ms>` (getTimeoutFromCallOptions);  `wct <ms>` => `t=<ms>` (WithCallTimeout) -/
+def runCliOptLine (r : Report) (sec : Nat) (l : Line) : Report :=
+  match l.op with
+  | "gt" :: dflt :: opts =>
+    match dflt.toInt?, parseCallOpts opts with
+    | some d, some os =>
+      let model := s!"t={getTimeoutFromCallOptions os (msI d) / 1000000}"
+      let impl := joinSp l.obs
+      let r := r.addCover (if os.any (·.isSome) then "gt-call-option" else "gt-default")
+      let r := if model ≠ impl then r.mismatch sec l.idx model impl else r
+      if obsOf l "t" ≠ toString (Spec.callTimeout d (os.map (·.map (· / 1000000)))) then
+        r.violation sec l.idx s!"the per-call timeout is neither the first WithCallTimeout option nor (without one) the default: op=[{joinSp l.op}] impl=[{impl}]"
+      else r
+    | _, _ => r.mismatch sec l.idx "bad-op" (joinSp l.op)
+  | ["wct", x] =>
+    match x.toInt? with
+    | some v =>
+      let model := s!"t={v}"
+      let impl := joinSp l.obs
+      let r := r.addCover "wct"
+      if model ≠ impl then (r.mismatch sec l.idx model impl).violation sec l.idx s!"WithCallTimeout(t) does not carry t: op=[{joinSp l.op}] impl=[{impl}]" else r
+    | none => r.mismatch sec l.idx "bad-op" (joinSp l.op)
+  | _ => r.mismatch sec l.idx "bad-op" (joinSp l.op)
 
 /-! ### Hijack lines: `hij <sup|nosup> <kind> <before|after>` => `hijack=<ok|refused|unsupported>` -/
 
@@ -591,7 +744,10 @@ def runSection (r : Report) (s : Section) : Report :=
     match l.op.head? with
     | some "rest" => runRestLine r s.idx l true
     | some "race" => runRestLine r s.idx l false
-    | some "dl" => runDlSelLine r s.idx l
+    | some "dl" => runDlSelLine r s.idx l (if kv? s.cfg "inst" = some "shared" then s.lines else [])
+    | some "tsel" => runTSelLine r s.idx l (if kv? s.cfg "inst" = some "shared" then s.lines else [])
+    | some "fxt" => runFxtLine r s.idx l
+    | some "gt" | some "wct" => runCliOptLine r s.idx l
     | some "hij" => runHijLine r s.idx l
     | some "edl" | some "emax" =>
       (match parseEng s.cfg with
